@@ -671,7 +671,7 @@ func isFieldOf(fa *ssa.FieldAddr, named *types.Named, field string) bool {
 	if s == nil || !sameNamed(n, named) {
 		return false
 	}
-	return s.Field(fa.Field).Name() == field
+	return pinnedFieldName(n, s, fa.Field) == field
 }
 
 func fieldName(fa *ssa.FieldAddr) (string, *types.Named) {
@@ -679,7 +679,7 @@ func fieldName(fa *ssa.FieldAddr) (string, *types.Named) {
 	if s == nil {
 		return "", nil
 	}
-	return s.Field(fa.Field).Name(), n
+	return pinnedFieldName(n, s, fa.Field), n
 }
 
 // EvOr combines events.
